@@ -349,44 +349,58 @@ fn decode_stun_message(bytes: &[u8]) -> Result<StunDecoded> {
         // which carries nothing we read) is not covered by it and must be ignored -
         // otherwise anyone can append, say, USE-CANDIDATE to a captured genuine check.
         let typ = if integrity.is_some() { 0xFFFF } else { typ };
+        // RFC 5389 15: when an attribute appears more than once, only the first
+        // occurrence is processed.
         match typ {
             0x0020 => {
-                if let Some(addr) = parse_xor_address(value, &transaction_id)? {
+                if let Some(addr) = parse_xor_address(value, &transaction_id)?
+                    && xor_mapped_address.is_none()
+                {
                     xor_mapped_address = Some(addr);
                 }
             }
             0x0016 => {
-                if let Some(addr) = parse_xor_address(value, &transaction_id)? {
+                if let Some(addr) = parse_xor_address(value, &transaction_id)?
+                    && xor_relayed_address.is_none()
+                {
                     xor_relayed_address = Some(addr);
                 }
             }
             0x0012 => {
-                if let Some(addr) = parse_xor_address(value, &transaction_id)? {
+                if let Some(addr) = parse_xor_address(value, &transaction_id)?
+                    && xor_peer_address.is_none()
+                {
                     xor_peer_address = Some(addr);
                 }
             }
             0x0009 => {
-                if value.len() >= 4 {
+                if value.len() >= 4 && error_code.is_none() {
                     let code = (value[2] as u16) * 100 + value[3] as u16;
                     error_code = Some(code);
                 }
             }
             0x0014 => {
-                if let Ok(text) = std::str::from_utf8(value) {
+                if let Ok(text) = std::str::from_utf8(value)
+                    && realm.is_none()
+                {
                     realm = Some(text.to_string());
                 }
             }
             0x0015 => {
-                if let Ok(text) = std::str::from_utf8(value) {
+                if let Ok(text) = std::str::from_utf8(value)
+                    && nonce.is_none()
+                {
                     nonce = Some(text.to_string());
                 }
             }
             0x0013 => {
-                data = Some(value.to_vec());
+                if data.is_none() {
+                    data = Some(value.to_vec());
+                }
             }
             0x000D => {
                 // LIFETIME (RFC 5766): 4-byte big-endian seconds.
-                if value.len() >= 4 {
+                if value.len() >= 4 && lifetime.is_none() {
                     lifetime = Some(u32::from_be_bytes([value[0], value[1], value[2], value[3]]));
                 }
             }
@@ -394,7 +408,9 @@ fn decode_stun_message(bytes: &[u8]) -> Result<StunDecoded> {
                 use_candidate = true;
             }
             0x0006 => {
-                username = std::str::from_utf8(value).ok().map(str::to_string);
+                if username.is_none() {
+                    username = std::str::from_utf8(value).ok().map(str::to_string);
+                }
             }
             0x0008 => {
                 // Only the first MESSAGE-INTEGRITY counts; what follows it (other
